@@ -112,6 +112,36 @@ def check_frame(frame):
     except Exception as e:  # pylint: disable=broad-except
       r.bad('C13/corrupt-frame-wrong-error/%s/%s' % (name.split(':')[0], type(e).__name__), '%s: raised %r' % (name, e))
   r.classes.append('corruptions:%d' % n_corr)
+  # (e) the payload read fails once (timeout) after the header was consumed; the frame is still read back intact by the
+  # next call - on the plain adapter and on the logging one (--adb_message_log)
+  if payload:
+    for cls in (m.adb_message.AdbTransportAdapter, m.adb_message.DebugAdbTransportAdapter):
+      chunks_in = list(fk.frame_chunks(cmd, a0, a1, payload))
+
+      class FailOnce(fk.ChunkTransport):
+        failed = False
+
+        def read(self, length, timeout_ms=None):
+          if len(self.to_read) == 1 and not self.failed:      # about to hand out the payload: time out once instead
+            self.failed = True
+            raise fk.timeout_error()
+          return fk.ChunkTransport.read(self, length, timeout_ms)
+
+      tr = FailOnce(chunks_in)
+      ad = cls(tr)
+      try:
+        ad.read_message(pt(m, 1000))
+        r.bad('C13/late-payload/first-read-did-not-fail', 'harness: %s' % cls.__name__)
+      except ex.CommonUsbError:
+        pass
+      except Exception as e:  # pylint: disable=broad-except
+        r.bad('C13/late-payload/wrong-error/%s' % type(e).__name__, '%s: first read raised %r' % (cls.__name__, e))
+      try:
+        got = ad.read_message(pt(m, 1000))
+        if (got.command, got.arg0, got.arg1, got.data) != (cmd, a0 & 0xFFFFFFFF, a1 & 0xFFFFFFFF, payload):
+          r.bad('C13/late-payload/frame-changed', '%s: read back %r' % (cls.__name__, got))
+      except Exception as e:  # pylint: disable=broad-except
+        r.bad('C13/late-payload/frame-lost/%s' % type(e).__name__, '%s: the read after a timed-out payload read raised %r' % (cls.__name__, e))
   # (d) timeout expires during the header write
   if payload:
     from openhtf.util import timeouts  # pylint: disable=g-import-not-at-top
